@@ -144,8 +144,22 @@ def extra_checks(tier, seed):
     n = 250 if tier == 'quick' else 8000
     cases, bad = hsm.async_stream('C02a', seed, n, p_parallel=0.35)
     detail = dict(cases=len(cases), disagreements=len(bad))
+    out = []
     if bad:
         c, m, i = bad[0]
-        return [('async_suspending_callbacks', False, detail,
-                 dict(kind='counterexample', stream='HierarchicalAsyncMachine with suspending callbacks', case=c, model_obs=m, impl_obs=i))]
-    return [('async_suspending_callbacks', True, detail, {})]
+        out.append(('async_suspending_callbacks', False, detail,
+                    dict(kind='counterexample', stream='HierarchicalAsyncMachine with suspending callbacks', case=c, model_obs=m, impl_obs=i)))
+    else:
+        out.append(('async_suspending_callbacks', True, detail, {}))
+    n2 = 150 if tier == 'quick' else 4000
+    cases, bad, marks = hsm.async_nested_stream('C02n', seed, n2, p_parallel=0.3)
+    detail = dict(cases=len(cases), disagreements=len(bad), nested_internal_events_processed=marks)
+    if bad:
+        c, m, i = bad[0]
+        out.append(('async_callbacks_awaiting_internal_events', False, detail,
+                    dict(kind='counterexample', stream='HierarchicalAsyncMachine, enter/exit callbacks awaiting an internal event',
+                         case=c, model_obs=m, impl_obs=i,
+                         note='model_obs is the run of the twin case without the awaited internal events (markers removed on both sides)')))
+    else:
+        out.append(('async_callbacks_awaiting_internal_events', True, detail, {}))
+    return out
